@@ -241,9 +241,12 @@ def main(run):
                 y = rnd.randrange(-4, 5)
                 force = rnd.random() < 0.2
                 upd = True if c == 1 else rnd.random() < 0.8
-                replay["calls"].append({"ordinal": c, "force_explain": force, "update_storage": upd})
+                # truthy / falsy flags of other types are legal booleans too (numpy comparisons produce np.bool_)
+                force_arg = rnd.choice([force, np.bool_(force), int(force)])
+                upd_arg = rnd.choice([upd, np.bool_(upd), int(upd)])
+                replay["calls"].append({"ordinal": c, "force_explain": repr(force_arg), "update_storage": repr(upd_arg)})
                 clock.reset()
-                ret = e.explain_one(x, y, update_storage=upd, force_explain=force, verbose=False)
+                ret = e.explain_one(x, y, update_storage=upd_arg, force_explain=force_arg, verbose=False)
                 log = list(clock.log)
                 if upd:
                     stored.append((x, y))
